@@ -1,14 +1,7 @@
 #![allow(dead_code)]
-mod gen;
-mod likely;
-mod model;
-mod obs;
-mod ops;
-mod props;
-mod run;
-mod values;
 
-use run::*;
+use vcheck::props;
+use vcheck::run::*;
 use std::path::PathBuf;
 use std::time::Instant;
 
@@ -232,7 +225,14 @@ fn main() {
         };
         do_replay(&cfg, path, &p.replay)
     } else {
-        let st = (p.run)(&cfg);
+        let mut st = (p.run)(&cfg);
+        // thorough tier: coverage-guided campaign on the same oracle (DESIGN.md 3.8)
+        let target = id.to_lowercase();
+        let fuzz_on = cfg.tier == Tier::Thorough || std::env::var("VERIF_FUZZ").map_or(false, |v| v == "1");
+        if fuzz_on && std::env::var("VERIF_FUZZ").map_or(true, |v| v != "0") && vcheck::fuzz::target_fn(&target).is_some() {
+            let runs: u64 = std::env::var("VERIF_FUZZ_RUNS").ok().and_then(|v| v.parse().ok()).unwrap_or(if target == "c01" { 400_000 } else { 1_500_000 });
+            st = st.merge(vcheck::fuzz::campaign(&cfg, &target, runs, 8));
+        }
         finish(&cfg, st, p.rule, p.assumptions, &p.replay)
     };
     std::process::exit(code);
